@@ -144,30 +144,56 @@ def rule_ordered(ctx, rule="R31b"):
         if tx is None:
             ctx.ob(rule, "logs_until:sorted", False, "logs_until no longer sorts the selected logs (no sort call found)", lu.where)
         else:
-            sy = R.Sym(fa, tx)
+            # value-flow formulation (independent of filter_map / map+filter / loop spellings):
+            #   the vector handed to logs() is computed from the vector that was sorted (sort first), the sort key is the
+            #   first component of its elements, and those elements are (index value of the entry, entry id) pairs built
+            #   from a query that selects values("index")
             sorts = [(i, t) for i, t in cfg.calls(tx) if (cfg.callee(t) or "").split("::")[-1] in SORTS]
             loads = [(i, t) for i, t in cfg.calls(tx) if common.norm(cfg.callee(t) or "") == "agdb_server::cluster_log::logs"]
             ok = bool(sorts and loads)
             why = "no sort_by_key / no logs() call (idiom not recognised)"
             if ok:
                 i, t = sorts[0]
-                vec = sy.op(t["a"][0])
-                keyc = sy.op(t["a"][1])
-                kb = fa.body(keyc[len("closure:"):]) if keyc.startswith("closure:") else None
-                keyret = [R._rvalue_term(R.Sym(fa, kb), s["r"]) for bi, s in cfg.assigns(kb) if s["l"] == [0]] if kb else []
-                m = re.match(r"^collect\(filter_map\((.*), closure:(.*)\)\)$", vec)
-                fb = fa.body(m.group(2)) if m else None
-                somes = [R._rvalue_term(R.Sym(fa, fb), s["r"]) for bi, s in cfg.assigns(fb) if s["l"] == [0]] if fb else []
-                pair_ok = bool(somes) and all(x == "Option::None{}" or re.match(
-                    r"^Option::Some\{tuple\{unwrap_or_default\(to_u64\(index\(e\.values, 0\)\.value\)\),e\.id\}\}$", x) for x in somes)
-                sel_ok = bool(m) and 'values(select(), "index")' in m.group(1)
-                key_ok = bool(keyret) and all(re.match(r"^\w+\.0$", x) for x in keyret)
-                arg = sy.op(loads[0][1]["a"][1])
-                flow_ok = arg.startswith("collect(map(" + vec + ", closure:")
+                vroot = cfg.op_origin(tx, t["a"][0])
+                kbs = common.closure_bodies_passed(fa, tx, t)
+                key_ok = False
+                for kb in kbs:
+                    for bi, st in cfg.assigns(kb):
+                        if st["l"] == [0] and st["r"]["k"] in ("use", "cast"):
+                            o = common.param_origin(kb, st["r"]["o"])
+                            if o and o[0] == 2 and o[1][:1] == [".0"]:
+                                key_ok = True
+                vsl, vcalls, _ = cfg.backward_slice(tx, [vroot[0]]) if vroot else (set(), [], set())
+                pair_ok = False
+                sel_ok = False
+                for ci, ct in vcalls:
+                    if (cfg.callee(ct) or "").split("::")[-1] == "values" and any(
+                            (cfg.op_const(a) or {}).get("c", "").strip('"') == "index" for a in ct["a"]):
+                        sel_ok = True
+                    for cb in common.closure_bodies_passed(fa, tx, ct):
+                        for bi, st in cfg.assigns(cb):
+                            r = st["r"]
+                            if r["k"] == "agg" and r.get("what") == "tuple" and len(r["ops"]) == 2:
+                                o1 = common.param_origin(cb, r["ops"][1])
+                                sl0, c0, _r0 = cfg.backward_slice(cb, [cfg.op_place(r["ops"][0])[0]]) if cfg.op_place(r["ops"][0]) else (set(), [], set())
+                                from_index_value = any((cfg.callee(x) or "").endswith("::to_u64") for _i, x in c0)
+                                if o1 and o1[1][-1:] == [".id"] and from_index_value:
+                                    pair_ok = True
+                arg_pl = cfg.op_place(loads[0][1]["a"][1]) if len(loads[0][1]["a"]) > 1 else None
+                asl, acalls, _ = cfg.backward_slice(tx, [arg_pl[0]]) if arg_pl else (set(), [], set())
+                flow_ok = bool(vroot) and vroot[0] in asl
+                snd_ok = False
+                for ci, ct in acalls:
+                    for cb in common.closure_bodies_passed(fa, tx, ct):
+                        for bi, st in cfg.assigns(cb):
+                            if st["l"] == [0] and st["r"]["k"] in ("use", "cast"):
+                                o = common.param_origin(cb, st["r"]["o"])
+                                if o and o[0] == 2 and o[1][:1] == [".1"]:
+                                    snd_ok = True
                 order_ok = cfg.find_path(tx, [0], [j for j, tt in loads], avoid=[j for j, tt in sorts]) is None
-                ok = pair_ok and sel_ok and key_ok and flow_ok and order_ok
+                ok = pair_ok and sel_ok and key_ok and flow_ok and snd_ok and order_ok
                 why = "pairs (index value, id): %s; selects values(\"index\"): %s; key closure returns .0: %s; logs() loads the " \
-                      "sorted vector: %s; sort precedes logs(): %s" % (pair_ok, sel_ok, key_ok, flow_ok, order_ok)
+                      "ids (.1) of the sorted vector: %s; sort precedes logs(): %s" % (pair_ok, sel_ok, key_ok, flow_ok and snd_ok, order_ok)
             ctx.ob(rule, "logs_until:sorted", ok,
                    "logs_until collects (index, id) pairs, sort_by_key(.0), then loads the ids in that order" if ok else
                    "logs_until does not provably return the logs in index order: " + why, tx.where)
